@@ -48,6 +48,8 @@ func init() {
 			{ID: "R18e", Floor: 1, Doc: "symlink target verbatim", Run: ruleR18e},
 			{ID: "R18j", Floor: 2, Doc: "the index that extract generates for a CARv1 records true section offsets (= R03b)", Run: ruleR03b},
 			{ID: "R18m", Floor: 3, Doc: "extracted files are created truncating (= R19f)", Run: ruleR19f},
+			{ID: "R18o", Floor: 1, Doc: "extraction does not skip silently: extractDir itself never returns `0, nil` (the only tolerated skip is the per-entry 'data for entry not found' of the closure); a tree that was packed is extracted whole or the command fails", Run: ruleR18o},
+			{ID: "R18p", Floor: 1, Doc: "car extract reads what car create wrote: no command lowers the section-size limit for itself (= R19i)", Run: ruleR19i},
 		},
 	})
 }
@@ -752,4 +754,23 @@ func ruleR18n(c *Ctx, r *Report) {
 		}
 	}
 	r.Check(bad == "", key, c.Pos(calls[0].Pos()), "the block reader gets a reader without Seek", bad)
+}
+
+func ruleR18o(c *Ctx, r *Report) {
+	fn, err := c.Func(pkgCmdLib, "", "extractDir")
+	if err != nil {
+		r.InfraFail("%v", err)
+		return
+	}
+	key := "no-silent-skip@" + fnKey(fn)
+	bad := ""
+	for _, ret := range returnsOf(fn) {
+		if len(ret.Results) != 2 {
+			continue
+		}
+		if k, ok := constInt(retResult(ret, 0)); ok && k == 0 && resultIsNilConst(ret, 1) {
+			bad = fmt.Sprintf("extractDir returns `0, nil` at %s: a directory (and everything below it) is left out while the command reports success", c.Pos(ret.Pos()))
+		}
+	}
+	r.Check(bad == "", key, c.Pos(fn.Pos()), "extractDir has no silent-skip return", bad)
 }
